@@ -238,7 +238,7 @@ Section NonInterference.
       apply Hv. apply Hm. reflexivity.
     - split; [exact Hs|]. split; [exact Hv|].
       unfold reads_of at 1 2. simpl. rewrite !filter_app, !map_app. simpl.
-      rewrite Nat.eqb_refl. simpl. unfold reads_of in Hr. rewrite Hr, Hs. reflexivity.
+      rewrite Nat.eqb_refl. simpl. unfold reads_of in Hr. f_equal; [exact Hr | f_equal; exact Hs].
   Qed.
 
   Lemma sim_step_other : forall S P e, sim S P -> ev_tid e <> t ->
